@@ -14,11 +14,17 @@ Contents(f) == CASE f = "chunk" -> {NoneC, [kind |-> "chunk"]}
                  [] f = "txs" -> {NoneC} \cup {[kind |-> "txs", ids |-> s] : s \in (SUBSET {1, 2}) \ {{}}}
                  [] f = "reg" -> {NoneC} \cup {[kind |-> "reg", ops |-> s] : s \in SUBSET {1, 2}}
 
-VARIABLES fam, initial, content, rounds, bad
-vars == <<fam, initial, content, rounds, bad>>
+VARIABLES fam, placed, upd, initial, content, rounds, bad
+vars == <<fam, placed, upd, initial, content, rounds, bad>>
 
+\* placements: every divergence pattern; plus "synchronised, then one node accepts an update" (the update
+\* is a second delivery to a node that already holds the record -- an overwrite of a held key)
+NoUpd == [node |-> 0, c |-> NoneC]
 Init == /\ fam \in Families
-        /\ initial \in [Node -> Contents(fam)]
+        /\ placed \in [Node -> Contents(fam)]
+        /\ upd \in {NoUpd} \cup {[node |-> n, c |-> c] : n \in Node, c \in {x \in Contents(fam) : x.kind \in {"pad", "txs", "reg"}}}
+        /\ (upd # NoUpd => (\A a, b \in Node : placed[a] = placed[b]) /\ placed[1].kind # "none" /\ Merge(placed[upd.node], upd.c) # placed[upd.node])
+        /\ initial = [n \in Node |-> IF n = upd.node THEN Merge(placed[n], upd.c) ELSE placed[n]]
         /\ content = initial /\ rounds = <<>> /\ bad = {}
 \* round-robin cycles in any order inside a cycle: a node may run its k-th round when all have run k-1
 Count(i) == Cardinality({p \in 1..Len(rounds) : rounds[p] = i})
@@ -29,7 +35,7 @@ Round(i) == /\ MayRun(i)
                /\ rounds' = Append(rounds, i)
                /\ bad' = (IF C09_AcceptHeld(content, i, after) THEN {} ELSE {"C09_AcceptHeld"})
                     \cup (IF C09_NoRegress(content, i, after) THEN {} ELSE {"C09_NoRegress"})
-               /\ UNCHANGED <<fam, initial>>
+               /\ UNCHANGED <<fam, placed, upd, initial>>
 Next == \E i \in Node : Round(i)
 Spec == Init /\ [][Next]_vars
 
@@ -44,5 +50,6 @@ CJ(c) == CASE c.kind = "none" -> [fam |-> "none"]
            [] c.kind = "pad" -> [fam |-> "pad", c |-> c.c, content |-> c.c]
            [] c.kind = "txs" -> [fam |-> "txs", ids |-> SetToSeq(c.ids)]
            [] c.kind = "reg" -> [fam |-> "reg", ops |-> SetToSeq(c.ops)]
-Emit == Done => PrintT(<<"SCN", ToJson([nodes |-> NN, family |-> fam, initial |-> [n \in Node |-> CJ(initial[n])], rounds |-> rounds])>>)
+Emit == Done => PrintT(<<"SCN", ToJson([nodes |-> NN, family |-> fam, initial |-> [n \in Node |-> CJ(placed[n])],
+                                         update |-> [node |-> upd.node, c |-> CJ(upd.c)], rounds |-> rounds])>>)
 =============================================================================
